@@ -22,6 +22,9 @@ pub struct Program {
     /// start from a shared base document with a list, a text and a map
     pub shared: bool,
     pub steps: Vec<Step>,
+    /// size of the key pool (0 = all keys); small pools make concurrent writers collide
+    #[serde(default)]
+    pub nkeys: u8,
 }
 
 // step kinds; lower = simpler (shrinking moves towards 0)
@@ -99,7 +102,7 @@ impl Step {
 impl Program {
     pub fn describe(&self) -> serde_json::Value {
         serde_json::json!({
-            "enc": self.enc, "nrep": self.nrep, "shared": self.shared,
+            "enc": self.enc, "nrep": self.nrep, "shared": self.shared, "nkeys": self.nkeys,
             "steps": self.steps.iter().map(|s| s.describe()).collect::<Vec<_>>()
         })
     }
@@ -273,7 +276,7 @@ pub fn step_strategy(preset: Preset) -> impl Strategy<Value = Step> {
 
 pub fn program_strategy(preset: Preset, max_steps: usize, max_rep: u8, encs: u8) -> impl Strategy<Value = Program> {
     (0..encs.max(1), 1..=max_rep.max(1), prop::bool::weighted(0.8), prop::collection::vec(step_strategy(preset), 1..max_steps.max(2)))
-        .prop_map(|(enc, nrep, shared, steps)| Program { enc, nrep, shared, steps })
+        .prop_map(move |(enc, nrep, shared, steps)| Program { enc, nrep, shared, steps, nkeys: if preset == CONFLICT { 3 } else { 0 } })
 }
 
 /// Decode a program from raw fuzzer bytes (16 bytes per step after a 3-byte header).
@@ -298,5 +301,5 @@ pub fn program_from_bytes(data: &[u8], preset: Preset) -> Program {
             break;
         }
     }
-    Program { enc: hdr[0] % 4, nrep: 1 + hdr[1] % 4, shared: hdr[2] % 5 != 0, steps }
+    Program { enc: hdr[0] % 4, nrep: 1 + hdr[1] % 4, shared: hdr[2] % 5 != 0, steps, nkeys: if preset == CONFLICT { 3 } else { 0 } }
 }
